@@ -137,14 +137,15 @@ func (p *pod) GetQOSClass() v1.PodQOSClass {
 }
 
 func (p *pod) goFetchPodResources(ch <-chan *podresapi.PodResources) {
+	p.podResCh = ch
+	p.waitResCh = make(chan struct{})
+
 	go func() {
-		p.podResCh = ch
-		p.waitResCh = make(chan struct{})
 		defer close(p.waitResCh)
 
 		if p.podResCh != nil {
-			p.PodResources = <-p.podResCh
-			log.Debug("fetched pod resources %+v for %s", p.PodResources, p.GetName())
+			p.fetchedRes = <-p.podResCh
+			log.Debug("fetched pod resources %+v for %s", p.fetchedRes, p.GetName())
 		}
 	}()
 }
@@ -158,6 +159,10 @@ func (p *pod) GetPodResources() *podresapi.PodResources {
 	if p.waitResCh != nil {
 		log.Debug("waiting for pod resources fetch to complete...")
 		<-p.waitResCh
+		if p.fetchedRes != nil {
+			p.PodResources = p.fetchedRes
+			p.fetchedRes = nil
+		}
 	}
 	return p.PodResources
 }
